@@ -221,7 +221,9 @@ def coq_eval(preamble, exprs, name="cases", timeout=600, raw=False):
         for i, e in enumerate(exprs):
             f.write(f"Definition case_{i} := {e}.\n")
             f.write(f"Eval vm_compute in (777777%N, case_{i}).\n")
-    rc, o, e = sh(["coqc", "-noglob", "-Q", os.path.join(VERIF, "theories"), "Ink", path],
+    # large story terms (The Intercept) overflow the default 8 MB stack of coqc's parser / vm_compute
+    rc, o, e = sh(["sh", "-c", "ulimit -s unlimited 2>/dev/null || ulimit -s 1000000 2>/dev/null; exec \"$@\"", "coqc",
+                   "coqc", "-noglob", "-Q", os.path.join(VERIF, "theories"), "Ink", path],
                   cwd=SCRATCH, timeout=timeout)
     for ext in (".v", ".vo", ".vok", ".vos", ".glob"):
         try:
